@@ -5,6 +5,7 @@ Require Import IW.UT.Hmap IW.UT.Hmap_inv_proofs IW.UT.Hmap_proofs.
 Require Import IW.UT.Ulist IW.UT.Ulist_proofs IW.UT.Sarr IW.UT.Sarr_proofs IW.UT.Rb IW.UT.Rb_proofs.
 Require Import IW.UT.Xstr IW.UT.Xstr_proofs IW.UT.Avl IW.UT.Avl_proofs IW.UT.Pool IW.UT.Pool_proofs.
 Require Import IW.UT.Plist IW.UT.Plist_proofs.
+Require Import IW.UT.Pforest IW.UT.Pforest_proofs.
 Import ListNotations.
 
 (* ================================================================ T1: the static hash functions at probe points *)
@@ -305,3 +306,102 @@ Print Assumptions C18_pool_regions_disjoint.
 
 Example C18_pool_example : p_wf (p_create 64) /\ p_wf p_create_empty.
 Proof. split; [apply p_create_wf | apply p_create_empty_wf]. Qed.
+
+(* ================================================================ memory pool: hierarchy x reference counting (iwpool_create_attach,
+   iwpool_ref, iwpool_destroy, user data; model UT/Pforest.v, pointer level: a load or store through a pointer to a released
+   pool sets f_fault).  f_run executes any list of calls, dropping the calls that pass a pool already released (the caller's
+   side of the contract). *)
+
+(* freed memory is never touched: no call sequence makes the code follow a pointer to a released pool, release a pool twice,
+   or run out of the recursion bound of the model *)
+Theorem C18_pforest_no_use_after_free : forall ops : list fop, f_fault (f_run f_empty ops) = false.
+Proof. exact run_no_fault. Qed.
+Print Assumptions C18_pforest_no_use_after_free.
+
+(* no pool keeps a parent link to a released pool (the invariant the round-5 seeded change breaks): in every reachable state a
+   live pool has a count >= 1, and its parent pointer, when set, names an OLDER LIVE pool whose child chain consists of live
+   pools, contains it, and contains exactly the pools whose parent pointer names that parent *)
+Theorem C18_pforest_links : forall (ops : list fop) (i : nat) (c : cell),
+  let F := f_run f_empty ops in get F i = Some c ->
+  (1 <= c_refs c)%Z /\
+  forall q, c_parent c = Some q ->
+    (q < i)%nat /\ exists qc L, get F q = Some qc /\ chain F (length (f_slots F)) (c_children qc) L /\ In i L /\
+                                forall x, In x L <-> haspar F x q.
+Proof. exact run_links. Qed.
+Print Assumptions C18_pforest_links.
+
+(* WHEN a pool is released.  iwpool_destroy(p) on a live pool of a reachable state: with a count other than 1 only the count
+   changes.  With count 1: p is released; another pool x is released in the same call iff its parent is released in this call
+   and x's count is 1; a pool whose parent is released and whose count is larger survives with count - 1 and a cleared parent
+   pointer; every other pool keeps count, parent, units and user data; nothing released earlier comes back; and the releases
+   logged by the call are, for every pool released in it, exactly its block (units, user data destructor when one is set,
+   struct) and nothing for any other pool. *)
+Theorem C18_pforest_release_rule : forall (ops : list fop) (p : nat) (c : cell),
+  let f := f_run f_empty ops in get f p = Some c ->
+  let f' := fst (f_destroy f p) in
+  inv f' /\ snd (f_destroy f p) = (c_refs c =? 1)%Z /\
+  (c_refs c <> 1%Z -> f' = set f p (with_refs c (c_refs c - 1))) /\
+  (c_refs c = 1%Z ->
+     get f' p = None /\
+     (forall x cx, get f x = Some cx -> x <> p ->
+        (get f' x = None <-> exists y, c_parent cx = Some y /\ get f' y = None /\ c_refs cx = 1%Z) /\
+        (forall y, c_parent cx = Some y -> get f' y = None -> c_refs cx <> 1%Z ->
+           exists cx', get f' x = Some cx' /\ c_refs cx' = (c_refs cx - 1)%Z /\ c_parent cx' = None /\ same_data cx cx') /\
+        ((forall y, c_parent cx = Some y -> get f' y <> None) ->
+           exists cx', get f' x = Some cx' /\ c_refs cx' = c_refs cx /\ c_parent cx' = c_parent cx /\ same_data cx cx')) /\
+     (forall i, get f i = None -> get f' i = None) /\
+     length (f_slots f') = length (f_slots f) /\
+     exists evs, f_log f' = f_log f ++ evs /\
+       forall i, (forall ci, get f i = Some ci -> get f' i = None -> evs_of i evs = block i ci) /\
+                 (get f i = None \/ get f' i <> None -> evs_of i evs = [])).
+Proof. intros ops p c f Hg. exact (destroy_spec f p c (inv_run ops) Hg). Qed.
+Print Assumptions C18_pforest_release_rule.
+
+(* released exactly once: in the log of any run the events of pool i are: nothing if i was never created; only destructor
+   calls for replaced user data while i is alive; and for a released pool those followed by exactly ONE block
+   (units, destructor if set, struct) with nothing after it *)
+Theorem C18_pforest_released_once : forall (ops : list fop) (i : nat),
+  let F := f_run f_empty ops in
+  (length (f_slots F) <= i -> evs_of i (f_log F) = [])%nat /\
+  (forall c, get F i = Some c -> Forall is_ud (evs_of i (f_log F))) /\
+  ((i < length (f_slots F))%nat -> get F i = None ->
+     exists pre c, Forall is_ud pre /\ evs_of i (f_log F) = pre ++ block i c).
+Proof. intros ops i. exact (logok_run ops i). Qed.
+Print Assumptions C18_pforest_released_once.
+
+(* no leak: when every reference is dropped (pools in the order of creation, each pool without parent destroyed numrefs times -
+   `pf drain` of the harness) no pool is left, and still nothing released is touched *)
+Theorem C18_pforest_no_leak : forall ops : list fop,
+  let F := f_drain (f_run f_empty ops) in f_fault F = false /\ forall j, get F j = None.
+Proof. exact run_drain. Qed.
+Print Assumptions C18_pforest_no_leak.
+
+(* iwpool_alloc on a member of the forest changes the unit record of that pool only (C18_pool_alloc_ok /
+   C18_pool_regions_disjoint speak about that record) *)
+Theorem C18_pforest_alloc_local : forall (f : forest) (p n : nat) (c : cell), get f p = Some c ->
+  let f' := fst (f_alloc f p n) in
+  get f' p = Some (with_pool c (fst (p_alloc (c_pool c) n))) /\ (forall i, i <> p -> get f' i = get f i) /\
+  f_log f' = f_log f /\ f_fault f' = f_fault f.
+Proof. exact run_alloc. Qed.
+Print Assumptions C18_pforest_alloc_local.
+
+(* the code without `c->parent = 0;` in the child loop of iwpool_destroy (round-5 seeded change) is refuted: create, attach,
+   ref(child), destroy(parent), alloc(child), destroy(child) reads the released parent *)
+Theorem C18_pforest_keep_parent_refuted :
+  exists ops, f_fault (f_run_v false f_empty ops) = true /\ f_fault (f_run f_empty ops) = false.
+Proof. exact seed5_refuted. Qed.
+Print Assumptions C18_pforest_keep_parent_refuted.
+
+(* hypotheses satisfiable / non-trivial: a parent with two children, the older one retained by a second owner; the parent's
+   death releases the parent and the younger child and leaves the older one alive, detached, with one reference *)
+Example C18_pforest_example :
+  let ops := [FCreate 64; FAttach (Some 0) 8; FAttach (Some 0) 0; FRef 1; FUdSet 1 (Some 7) true; FAlloc 1 100] in
+  let f := f_run f_empty ops in
+  let f' := fst (f_destroy f 0) in
+  (map (fun i => match get f i with Some c => Some (c_refs c, c_parent c, c_children c, c_next c) | None => None end) [0; 1; 2]
+   = [Some (1%Z, None, Some 2, None); Some (2%Z, Some 0, None, None); Some (1%Z, Some 0, None, Some 1)]) /\
+  (map (fun i => match get f' i with Some c => Some (c_refs c, c_parent c) | None => None end) [0; 1; 2]
+   = [None; Some (1%Z, None); None]) /\
+  f_log f' = [EUnits 2 1; EFree 2; EUnits 0 1; EFree 0] /\
+  f_log (f_drain f') = [EUnits 2 1; EFree 2; EUnits 0 1; EFree 0; EUnits 1 2; EUd 1 (Some 7); EFree 1].
+Proof. vm_compute. repeat split; reflexivity. Qed.
